@@ -89,7 +89,9 @@ type OpRec struct {
 	// Faulted: an injected fault other than a spurious conflict hit one of this operation's
 	// datastore calls; Crashed: the client died during it.  Such an operation "stays open".
 	Faulted bool `json:"faulted,omitempty"`
-	Crashed bool `json:"crashed,omitempty"`
+	// HardFaults: how many such faults hit this operation.
+	HardFaults int  `json:"hardFaults,omitempty"`
+	Crashed    bool `json:"crashed,omitempty"`
 	// MustBeEmpty: every affinity release this operation performs requires an empty block.
 	MustBeEmpty bool `json:"-"`
 	// Conflicts / datastore calls seen by this op.
@@ -119,6 +121,7 @@ func (o *OpRec) noteDS(conflict, hardFault bool) {
 	}
 	if hardFault {
 		o.Faulted = true
+		o.HardFaults++
 	}
 	o.mu.Unlock()
 }
